@@ -194,6 +194,47 @@ def report_failures(tier, seed, results):
     return violations
 
 
+def ledger_pass(prop, tier, seed):
+    """C08 over change sets: amounts added to a change set are component values in the sense of C08. Runs the
+    changeset domain and reports the ledger verdicts of its monitor (`MON C08`: an amount neither yielded nor
+    destroyed, or destroyed twice). Returns (violations, stats)."""
+    ok, blog = vlib.build_harness([BIN])
+    if not ok:
+        return 0, {}
+    runs = plan("quick", seed) if tier == "quick" else plan(tier, seed)[:12]
+    with ThreadPoolExecutor(max_workers=8) as ex:
+        results = list(ex.map(run_one, runs))
+    violations, seen = 0, set()
+    for r in results:
+        ms = [m for m in r["mon"] if m.split()[1] == "C08"]
+        if not ms:
+            continue
+        m = ms[0]
+        why = " ".join(m.split("op=[")[0].split()[4:8])
+        if why in seen:
+            continue
+        seen.add(why)
+        cid = vlib.field(m, "case")
+        ops = case_ops(r, cid)[:int(vlib.field(m, "line"))]
+        def still(o):
+            return any(x.split()[1] == "C08" for x in run_script_ops(o)["mon"])
+        if still(ops):
+            ops = vlib.ddmin(ops, still)
+        path = vlib.write_replay(prop, f"cs-{seed}-{len(seen)}",
+                                 [f"property {prop}: every value moved into the world (here: added to a change set) is returned or destroyed exactly once",
+                                  f"monitor verdict on the implementation's transcript: {m}",
+                                  f"found by: h_changeset {' '.join(r['tail'])} (case {cid}); minimised by ddmin",
+                                  f"replay: bin/check {prop} --replay <this file>   (changeset domain)"], ops, DOMAIN)
+        print(f"VIOLATION property={prop} replay={path}")
+        violations += 1
+        if violations >= 2:
+            break
+    stats = {"changeset_cases": sum(int(r["stats"].get("cases", 0)) for r in results),
+             "changeset_destroyed": sum(int(r["stats"].get("destroyed", 0)) for r in results),
+             "changeset_partial_consumes": sum(int(r["stats"].get("partial_consumes", 0)) for r in results)}
+    return violations, stats
+
+
 def check(prop, tier, seed, t0):
     assert prop == PROP
     lean = vlib.build_lean(prop, thorough=(tier == "thorough"))
